@@ -250,9 +250,55 @@ def no_contract_applies(e):
             "unexpected keyword argument", "required positional argument", "required keyword-only argument", "positional arguments but", "positional argument but",
             "multiple values for argument")):
         return msg
+    if type(e) is TypeError and _raised_in_code_under_test(e) and _protocol_missing_on_sidecar_object(e):
+        return msg
     if _renamed_in_repo(e):
         return msg
     return None
+
+
+_PROTOCOL_WORDS = ("is not iterable", "is not subscriptable", "is not callable", "has no len()", "is not an iterator", "is not reversible",
+                   "does not support item assignment", "does not support item deletion", "does not support the context manager protocol",
+                   "unhashable type", "not supported between instances of", "unsupported operand type", "is not a mapping", "must be an iterable",
+                   "must be a mapping", "object cannot be interpreted as an integer")
+
+
+def _protocol_missing_on_sidecar_object(e):
+    """a TypeError of the form "'X' object is not iterable" / "argument of type 'X' is not iterable" ... where X is the class of a sidecar stub
+    visible in the frame that raised: the code uses a protocol (iteration, `in`, len, indexing, ordering ...) the stub does not model"""
+    import re
+
+    text = str(e)
+    if not any(w in text for w in _PROTOCOL_WORDS):
+        return False
+    names = set(re.findall(r"'([A-Za-z_][A-Za-z_0-9.]*)'", text))
+    if not names:
+        return False
+    tb = e.__traceback__
+    last = None
+    while tb is not None:
+        last = tb
+        tb = tb.tb_next
+    if last is None:
+        return False
+    fr = last.tb_frame
+    seen = list(fr.f_locals.values()) + list(fr.f_globals.values())
+    for o in list(seen):
+        try:
+            d = vars(o)
+        except TypeError:
+            continue
+        if isinstance(d, dict) and len(d) < 200:
+            seen.extend(d.values())
+    for o in seen:
+        try:
+            if type(o).__name__.split(".")[-1] in names and _is_sidecar_object(o):
+                return True
+            if isinstance(o, type) and o.__name__ in names and _is_sidecar_object(o):
+                return True
+        except Exception:  # noqa: BLE001
+            continue
+    return False
 
 
 def _is_sidecar_object(o):
